@@ -165,6 +165,13 @@ def handle : List String → String
   | ["hist", seed] => if seed.toNat?.isSome then "ok" else "bad-op"
   | ["tamper", seed] => if seed.toNat?.isSome then "ok" else "bad-op"
   | ["swap", "snapshot", seed] => if seed.toNat?.isSome then "undetected" else "bad-op"
+  -- exchanging two index / pack / key files: every read fails or returns what it returned before (oracle in the harness)
+  | ["swap", "index", seed] => if seed.toNat?.isSome then "ok" else "bad-op"
+  | ["swap", "pack", seed] => if seed.toNat?.isSome then "ok" else "bad-op"
+  | ["swap", "key", seed] => if seed.toNat?.isSome then "ok" else "bad-op"
+  -- two data packs with identical layout exchanged: the model's blob read (`decodeBlob`) has no id to compare with — the
+  -- substituted blob is a valid message and is returned (as `substitution_is_not_detected` for whole files)
+  | ["swap", "packtwin", seed] => if seed.toNat?.isSome then "undetected" else "bad-op"
   | _ => "bad-op"
 
 end Driver.C04
